@@ -3922,6 +3922,12 @@ coap_dispatch(coap_context_t *context, coap_session_t *session,
     }
     /* find message id in sendqueue to stop retransmission */
     coap_remove_from_queue(&context->sendqueue, session, pdu->mid, &sent);
+    if (sent && session->con_active) {
+      session->con_active--;
+      if (session->state == COAP_SESSION_STATE_ESTABLISHED)
+        /* Flush out any entries on session->delayqueue */
+        coap_session_connected(session);
+    }
     goto cleanup;
   }
 
